@@ -283,13 +283,15 @@ def r8(ctx):
     from .c01 import _DtypeLint
     m = ctx.model
     ci = m.cls('PixCoord')
-    lint = _DtypeLint(ctx, m)
     n = 0
     for name in ('separation', 'rotate', '__add__', '__sub__', '__eq__'):
         f = ci.methods.get(name)
         if f is None:
             continue
         n += 1
+        # + and - are the component-wise operations in the dtype the user gave (that is their meaning); a distance and
+        # a rotated position are real-number results, so there the offsets themselves must already be floating
+        lint = _DtypeLint(ctx, m, sums=name in ('separation', 'rotate'))
         before = len(lint.problems)
         lint.fn(f, ['scalar'] * len(f.node.args.args))
         new = lint.problems[before:]
